@@ -38,6 +38,7 @@ def run(facts, rep):
     d2_nullable_tls(facts, rep)
     d2_backref_validity(facts, rep)
     d3_pools(facts, rep)
+    d3_middle_cut_leftovers(facts, rep)
 
 
 def d1_size_chain(facts, rep):
@@ -176,62 +177,7 @@ def d1_entry(facts, rep):
             ok = bool(ve) and all(dominated_by_edges(fn, c[0], ve)[0] for c in al)
             rep.ob('D1', 'K13', fn, 'alignment is validated before any aligned allocation is attempted', ok,
                    'an alignment that is not a power of two reaches allocateAligned: misaligned / overlapping blocks instead of EINVAL')
-    for fn in facts.get('scalable_calloc'):
-        im = calls_named(fn, ('internalMalloc',))
-
-        def overflow(a, truth):
-            n = fn.n(fn.strip(a))
-            return truth and n.get('k') == 'binop' and n['op'] == '!=' and any(fn.nodes[x].get('k') == 'binop' and fn.nodes[x]['op'] == '/' for x in fn.subtree(n['s']))
-        oe = edges_where(fn, overflow)
-        ok = bool(oe) and bool(im)
-        for (b, si) in oe:
-            reached, ex, par = fn.walk((fn.blocks[b]['succ'][si], -1))
-            ok = ok and not any(q in set(c[0] for c in im) for q in reached)
-            es = errno_sets(fn)
-            ok = ok and every_path_passes(fn, (fn.blocks[b]['succ'][si], -1), lambda p, e: p in set(x[0] for x in es))[0]
-        rep.ob('D1', 'K13', fn, 'calloc: on nobj*size overflow the allocation is not attempted and errno is set', ok,
-               'a wrapped product is allocated: the caller writes beyond a too-small block')
-        # the exact division test may be skipped only where the product cannot overflow: both factors known to be below a constant
-        # M with M*M <= 2^64.  Path-sensitive: every path that reaches the allocation has passed the exact test's "no overflow"
-        # edge, or edges bounding BOTH factors.
-        from engine.rules import product_walk
-        pv = [pp['v'] for pp in fn.d.get('params', [])]
-        if len(pv) == 2:
-            def facts_on_edge(b, si):
-                out = set()
-                for (a, truth) in fn.edge_conds(b, si):
-                    nd = fn.n(fn.strip(a))
-                    if nd.get('k') != 'binop':
-                        continue
-                    if nd['op'] in ('>=', '>', '<', '<='):
-                        l, r = fn.n(fn.strip(nd['l'])), fn.n(fn.strip(nd['r']))
-                        op = nd['op'] if truth else {'>=': '<', '>': '<=', '<': '>=', '<=': '>'}[nd['op']]
-                        c = fn.cv(nd['r'])
-                        if l.get('k') == 'var' and l.get('v') in pv and c is not None and op in ('<', '<=') and c * c <= (1 << 64):
-                            out.add('b%d' % pv.index(l['v']))
-                    if nd['op'] in ('==', '!=') and any(fn.nodes[x].get('k') == 'binop' and fn.nodes[x]['op'] == '/' for x in fn.subtree(fn.strip(a))):
-                        if truth == (nd['op'] == '=='):
-                            out.add('x')
-                    # `nobj && ...`: a zero factor cannot overflow either
-                    if False:
-                        pass
-                for (a, truth) in fn.edge_conds(b, si):
-                    nd = fn.n(fn.strip(a))
-                    if nd.get('k') == 'var' and nd.get('v') in pv and not truth:
-                        out.add('x')          # factor == 0: the product is 0
-                return out
-
-            def edge_tr(st, b, si):
-                return frozenset(st | facts_on_edge(b, si))
-            seen = product_walk(fn, frozenset(), lambda st, pos, e: st, edge_tr)
-            bad_states = []
-            for c in im:
-                for (b, st) in seen:
-                    if b == c[0][0] and not ('x' in st or ('b0' in st and 'b1' in st)):
-                        bad_states.append(sorted(st))
-            rep.ob('D1', 'K14', fn, 'calloc skips the exact overflow test only when both factors are below 2^32', not bad_states,
-                   'a path reaches the allocation knowing only %s: with one factor >= 2^32 the product can wrap and a tiny block is returned '
-                   'for a huge array' % bad_states[:2], key_extra='calloc-heuristic')
+    calloc_overflow(facts, rep, 'D1')
     # errno on every null-returning path
     for name in ('scalable_malloc', 'scalable_calloc', 'scalable_realloc', 'scalable_aligned_malloc', 'scalable_aligned_realloc',
                  '__TBB_malloc_safer_realloc', '__TBB_malloc_safer_aligned_realloc'):
@@ -551,3 +497,142 @@ def d2_backref_validity(facts, rep):
                        ln=node['ln'], key_extra='backref|%s|%s' % (d['n'], node['ln']))
     if n < 2:
         raise AnalysisBroken('uses of a fresh back reference index found: %d (expected mallocLargeObject, StartupBlock::getBlock)' % n)
+
+
+def calloc_overflow(facts, rep, clause):
+    """shared with C17 (D2: a successful calloc has at least nobj*size usable bytes): the product of the two factors is tested for
+    overflow before the allocation, and the exact test is skipped only when both factors are known to be small"""
+    for fn in facts.get('scalable_calloc'):
+        im = calls_named(fn, ('internalMalloc',))
+
+        def overflow(a, truth):
+            n = fn.n(fn.strip(a))
+            return truth and n.get('k') == 'binop' and n['op'] == '!=' and any(fn.nodes[x].get('k') == 'binop' and fn.nodes[x]['op'] == '/' for x in fn.subtree(n['s']))
+        oe = edges_where(fn, overflow)
+        ok = bool(oe) and bool(im)
+        for (b, si) in oe:
+            reached, ex, par = fn.walk((fn.blocks[b]['succ'][si], -1))
+            ok = ok and not any(q in set(c[0] for c in im) for q in reached)
+            es = errno_sets(fn)
+            ok = ok and every_path_passes(fn, (fn.blocks[b]['succ'][si], -1), lambda p, e: p in set(x[0] for x in es))[0]
+        rep.ob(clause, 'K13', fn, 'calloc: on nobj*size overflow the allocation is not attempted and errno is set', ok,
+               'a wrapped product is allocated: the caller writes beyond a too-small block')
+        # the exact division test may be skipped only where the product cannot overflow: both factors known to be below a constant
+        # M with M*M <= 2^64.  Path-sensitive: every path that reaches the allocation has passed the exact test's "no overflow"
+        # edge, or edges bounding BOTH factors.
+        from engine.rules import product_walk
+        pv = [pp['v'] for pp in fn.d.get('params', [])]
+        if len(pv) == 2:
+            def facts_on_edge(b, si):
+                out = set()
+                for (a, truth) in fn.edge_conds(b, si):
+                    nd = fn.n(fn.strip(a))
+                    if nd.get('k') != 'binop':
+                        continue
+                    if nd['op'] in ('>=', '>', '<', '<='):
+                        l, r = fn.n(fn.strip(nd['l'])), fn.n(fn.strip(nd['r']))
+                        op = nd['op'] if truth else {'>=': '<', '>': '<=', '<': '>=', '<=': '>'}[nd['op']]
+                        c = fn.cv(nd['r'])
+                        if l.get('k') == 'var' and l.get('v') in pv and c is not None and op in ('<', '<=') and c * c <= (1 << 64):
+                            out.add('b%d' % pv.index(l['v']))
+                    if nd['op'] in ('==', '!=') and any(fn.nodes[x].get('k') == 'binop' and fn.nodes[x]['op'] == '/' for x in fn.subtree(fn.strip(a))):
+                        if truth == (nd['op'] == '=='):
+                            out.add('x')
+                    # `nobj && ...`: a zero factor cannot overflow either
+                    if False:
+                        pass
+                for (a, truth) in fn.edge_conds(b, si):
+                    nd = fn.n(fn.strip(a))
+                    if nd.get('k') == 'var' and nd.get('v') in pv and not truth:
+                        out.add('x')          # factor == 0: the product is 0
+                return out
+
+            def edge_tr(st, b, si):
+                return frozenset(st | facts_on_edge(b, si))
+            seen = product_walk(fn, frozenset(), lambda st, pos, e: st, edge_tr)
+            bad_states = []
+            for c in im:
+                for (b, st) in seen:
+                    if b == c[0][0] and not ('x' in st or ('b0' in st and 'b1' in st)):
+                        bad_states.append(sorted(st))
+            rep.ob(clause, 'K14', fn, 'calloc skips the exact overflow test only when both factors are below 2^32', not bad_states,
+                   'a path reaches the allocation knowing only %s: with one factor >= 2^32 the product can wrap and a tiny block is returned '
+                   'for a huge array' % bad_states[:2], key_extra='calloc-heuristic')
+
+
+def d3_middle_cut_leftovers(facts, rep):
+    """"pools stay inside their raw memory / the heap is never corrupted": a fixed pool can serve a slab-aligned request from a
+    block of an unaligned bin only by cutting the slab out of the MIDDLE of the block; splitBlock() then turns the left and the
+    right leftover into free blocks, i.e. writes a FreeBlock header into each.  A leftover that is neither empty nor at least
+    FreeBlock::minBlockSize is overrun by that header (into the neighbouring live object or into the slab just handed out).  Rule:
+    in IndexedBins::getFromBin the choice of a block on the path that computes the aligned position (alignUp of the block address) is
+    dominated, for EACH of the two leftovers separately, by a test "empty or >= minBlockSize" on a value derived from that
+    aligned position - a single test of their sum lets 8..48-byte leftovers through."""
+    n = 0
+    for fn in facts.get(RI + 'Backend::IndexedBins::getFromBin'):
+        defs = Defs(fn)
+        al = [c for c in calls_named(fn, ('alignUp',))]
+        if not al:
+            raise AnalysisBroken('IndexedBins::getFromBin: alignUp of the block address not found (the middle cut for fixed pools)')
+        # values derived from the aligned position
+        A = set()
+        changed = True
+        srcs = set(c[1] for c in al)
+        while changed:
+            changed = False
+            for (vid, dn), val in defs.value_of.items():
+                if val is None or vid in A:
+                    continue
+                sub = fn.subtree(val)
+                if (sub & srcs) or any(fn.nodes[x].get('k') == 'var' and fn.nodes[x].get('v') in A for x in sub):
+                    A.add(vid)
+                    changed = True
+        if not A:
+            raise AnalysisBroken('IndexedBins::getFromBin: the aligned position is not kept in a local')
+
+        def group_of(a):
+            """('bound'|'empty', frozenset of the other locals involved) for an atom that tests a leftover, else None"""
+            x = fn.n(fn.strip(a))
+            if x.get('k') != 'binop':
+                return None
+            sub = fn.subtree(x['s'])
+            vs = set(fn.nodes[y].get('v') for y in sub if fn.nodes[y].get('k') == 'var' and fn.nodes[y].get('local'))
+            if not (vs & A):
+                return None
+            others = frozenset(v for v in vs if v not in A)
+            has_min = any((fn.nodes[y].get('n') or fn.nodes[y].get('glob') or '').endswith('minBlockSize') for y in sub)
+            if x['op'] in ('>=', '>') and has_min:
+                return ('bound', others)
+            if x['op'] == '==' and not has_min:
+                return ('empty', others)
+            return None
+        groups = {}
+        for b, blk in fn.blocks.items():
+            t = blk.get('term')
+            if not t or 'c' not in t or len(blk['succ']) != 2:
+                continue
+            for si in (0, 1):
+                for a, truth in fn.edge_conds(b, si):
+                    g = group_of(a)
+                    if g and truth:
+                        groups.setdefault(g[1], {'bound': set(), 'empty': set()})[g[0]].add((b, si))
+        # assignments `fBlock = curr` reachable after the alignUp
+        # ... within the same iteration over the bin: the walk stops where the block variable gets its next value
+        blockvars = set(fn.nodes[x].get('v') for c in al for a in c[2].get('a', [])[:1] for x in fn.subtree(a) if fn.nodes[x].get('k') == 'var')
+        redef = set(s2 for s2, ds in defs.defs_at.items() if any(v in blockvars for (v, dn, val) in ds))
+        picks = [(p, s_) for p, s_, l, r in assignments(fn) if fn.n(fn.strip(l)).get('n') == 'fBlock' and fn.cv(r) is None and
+                 any(fn.can_reach(c[0], p, stop_elem=lambda q, e: isinstance(e, int) and e in redef) for c in al)]
+        if not picks:
+            raise AnalysisBroken('IndexedBins::getFromBin: the block is not chosen after the aligned position was computed')
+        full = [k for k, g in groups.items() if g['bound']]
+        ok = len(full) >= 2
+        for p, s_ in picks:
+            for k in full:
+                ok = ok and dominated_by_edges(fn, p, groups[k]['bound'] | groups[k]['empty'])[0]
+        n += 1
+        rep.ob('D3', 'K14', fn, 'a block is cut in the middle only if each of the two leftovers is empty or can hold a free-block header', ok,
+               'leftover tests that relate a value derived from the aligned position to FreeBlock::minBlockSize: %d (two are needed, one per '
+               'side, each dominating the choice of the block) - a left or right leftover of 8..48 bytes gets a FreeBlock header written '
+               'over its neighbour' % len(full), key_extra='middle-cut')
+    if n < 1:
+        raise AnalysisBroken('Backend::IndexedBins::getFromBin not found')
